@@ -32,6 +32,7 @@ from pysmt.optimization.optimizer import SUAOptimizerMixin, IncrementalOptimizer
 from pysmt.solvers.eager import EagerModel
 from pysmt.solvers.options import SolverOptions
 from pysmt.solvers.solver import IncrementalTrackingSolver
+from pysmt.solvers.smtlib import SmtLibBasicSolver
 
 MAX_BV_WIDTH = 4
 
@@ -344,7 +345,32 @@ class BruteInc(BruteSolver, IncrementalOptimizerMixin):
     """The real push/pop-based optimiser over the enumerating solver."""
 
 
+class _ScriptMixin(SmtLibBasicSolver):
+    """SMT-LIB command interface (what `SmtLibScript.evaluate` / `InterpreterOMT` drive).
+    `declare-fun` takes the domain of an Int symbol from `script_ranges[name]`."""
+
+    script_ranges = None
+
+    def declare_fun(self, symbol):
+        if symbol in self.domains:
+            return None
+        rng = (self.script_ranges or {}).get(symbol.symbol_name())
+        self.declare(symbol, rng)
+        return None
+
+    declare_const = declare_fun
+
+
+class BruteScriptSUA(BruteSUA, _ScriptMixin):
+    """assumption-based optimiser reachable through the script interpreter"""
+
+
+class BruteScriptInc(BruteInc, _ScriptMixin):
+    """push/pop-based optimiser reachable through the script interpreter"""
+
+
 MIXINS = {"sua": BruteSUA, "incr": BruteInc}
+SCRIPT_MIXINS = {"sua": BruteScriptSUA, "incr": BruteScriptInc}
 
 
 def register(env):
@@ -353,3 +379,5 @@ def register(env):
     f._all_solvers["brute"] = BruteSolver
     f._all_optimizers["brute_sua"] = BruteSUA
     f._all_optimizers["brute_incr"] = BruteInc
+    f._all_optimizers["brute_script_sua"] = BruteScriptSUA
+    f._all_optimizers["brute_script_incr"] = BruteScriptInc
